@@ -200,7 +200,7 @@ Inductive robs :=
 | OPush (ok : bool) | OSubmit (n : N) (accepted : list acc) | OSync (n : N)
 | ONext (y : option yield) | OReadable (b : bool) | OUnit.
 
-Inductive rev :=
+Inductive rv :=
 | Push (e : sqe) | Submit (now : N) (lats : list N) | CqNew | Sync (now : N)
 | Next (now : N) (order : list N) | Readable (now : N).
 
@@ -245,7 +245,7 @@ Definition next (r : ring) (fs : FS A) (now : N) (order : list N) : ring * FS A 
          Some {| y_ud := c_ud c; y_res := z; y_data := d; y_sid := c_sid c; y_when := c_when c; y_app := c_app c |})
     end.
 
-Definition rstep (r : ring) (fs : FS A) (e : rev) : ring * FS A * robs :=
+Definition rstep (r : ring) (fs : FS A) (e : rv) : ring * FS A * robs :=
   match e with
   | Push q => let '(r', ok) := push r q in (r', fs, OPush ok)
   | Submit now lats => let '(r', n) := submit r now lats in (r', fs, OSubmit n (acc_list (nsid r) now lats (sq r)))
@@ -260,13 +260,13 @@ Record host := { rings : list (N * ring); hfs : FS A; nrid : N }.
 
 Inductive hev :=
 | HNew (entries : N)
-| HRing (rid : N) (e : rev)
+| HRing (rid : N) (e : rv)
 | HDrop (rid : N)
 | HCrash
 | HFs (f : FS A -> FS A * (Z * list N)).    (* any other activity on the file system, incl. the synchronous API *)
 
 Inductive hobs :=
-| ONew (rid : option N) | ORing (rid : N) (o : robs) | OGone (rid : N) (e : rev) | OFs (z : Z) (d : list N) | ONone.
+| ONew (rid : option N) | ORing (rid : N) (o : robs) | OGone (rid : N) (e : rv) | OFs (z : Z) (d : list N) | ONone.
 
 Fixpoint get_ring (rid : N) (l : list (N * ring)) : option ring :=
   match l with
@@ -337,6 +337,9 @@ Definition hrun_enc (fs : FS A) (es : list hev) : list (N * list Z * list N) :=
 
 End WithFs.
 
+Arguments rings {A}.
+Arguments hfs {A}.
+Arguments nrid {A}.
 Arguments HNew {A}.
 Arguments HRing {A}.
 Arguments HDrop {A}.
